@@ -103,6 +103,7 @@ def run(rep):
     rep.rule("R04.c", "every guard of a binary score holds on the whole domain of tables with four positive counts")
     rep.rule("R04.d", "confusion matrix: crosstab(obs, sim) orientation matches the unpacking; padding restores and re-orders both axes")
     rep.rule("R04.e", "NaN-with-warning guards on a small observed mean / standard deviation dominate the divisions they protect")
+    rep.rule("R04.f", "contingency-table scores: no product of three or more integer counts is formed (int64 wraps for counts above ~2^21 / 2^16)")
     rep.assume("np.mean/np.sum/np.std/np.corrcoef/scipy.stats.spearmanr/pd.crosstab compute what their names say")
     ra, rc = mk_resolver()
     nform = 0
@@ -296,6 +297,77 @@ def run(rep):
         rep.check(st["ok"] and st["cmp"] > 0, "R04.b", rel, "binary", f"score '{key}' == {BINARY_REF[key]}",
                   f"computed as {st.get('got', '')}" if st["cmp"] else "only NaN is ever stored", line=st["line"])
     rep.floor("binary scores compared", len(seen), 14)
+    # R04.f: the counts are int64 (np.array(conf_mat, dtype=np.int64)); a product of d integer factors wraps beyond 2^(63/d)
+    pe_i = pq.PEval()
+    pe_i.b.keep_casts = True
+    ipaths = [p_ for p_ in pe_i.run(f, {"conf_mat": ('sym', 'cm0')}) if p_.how == "return"]
+    repl_i = {}
+    if ipaths:
+        for nm in want_pos:
+            if nm in ipaths[0].env:
+                repl_i[show(ipaths[0].env[nm])] = nm
+
+    def int_degree(e, worst):
+        """degree (in the integer counts) of the integer-valued expression e, None when e is floating point; worst: list collecting
+        (degree, text) of integer products"""
+        k_ = show(e)
+        if k_ in repl_i:
+            return 1
+        if e[0] == 'num':
+            return 0 if e[1].denominator == 1 else None
+        if e[0] in ('add', 'sub'):
+            a_, b_ = int_degree(e[1], worst), int_degree(e[2], worst)
+            return None if a_ is None or b_ is None else max(a_, b_)
+        if e[0] == 'neg':
+            return int_degree(e[1], worst)
+        if e[0] == 'mul':
+            a_, b_ = int_degree(e[1], worst), int_degree(e[2], worst)
+            if a_ is None or b_ is None:
+                return None
+            worst.append((a_ + b_, k_))
+            return a_ + b_
+        if e[0] == 'div':
+            int_degree(e[1], worst)
+            int_degree(e[2], worst)
+            return None
+        if e[0] == 'pow':
+            a_ = int_degree(e[1], worst)
+            try:
+                n_ = Canon().ratio(e[2])
+                if a_ is not None and n_.is_const() and n_.cval().denominator == 1 and n_.cval() >= 0:
+                    worst.append((a_ * int(n_.cval()), k_))
+                    return a_ * int(n_.cval())
+            except Undecided:
+                pass
+            return None
+        if e[0] == 'call':
+            for a_ in e[2]:
+                if isinstance(a_, tuple) and a_ and isinstance(a_[0], str):
+                    int_degree(a_, worst)
+            return None
+        if e[0] in ('where',):
+            for a_ in e[1:]:
+                int_degree(a_, worst)
+            return None
+        return None
+    nprod = 0
+    for p_ in ipaths[:1]:
+        v = p_.value
+        dct = v[1][0] if isinstance(v, tuple) and v[0] == 'tuple' else v
+        if not pq.call_named(dct, "dict"):
+            continue
+        for k_, val in zip(dct[2][0][1], dct[2][1][1]):
+            key = k_[1].strip("'\"") if k_[0] == 'sym' else None
+            if key not in BINARY_REF:
+                continue
+            worst = []
+            int_degree(val, worst)
+            nprod += len(worst)
+            big = sorted({(d_, t_) for d_, t_ in worst if d_ >= 3}, reverse=True)
+            rep.check(not big, "R04.f", rel, "binary", f"score '{key}': no integer product of three or more counts",
+                      f"`{big[0][1][:90]}` is an int64 product of degree {big[0][0]}: it wraps once the counts exceed about 2^{63 // big[0][0]} "
+                      f"(the score is then wrong or math.sqrt raises)" if big else "", line=p_.line)
+    rep.floor("integer products examined in binary", nprod, 1)
     # R04.c: every test met in binary (statement or conditional expression), except the shape check, holds for four positive counts
     for gtxt, (g, key) in sorted(guards.items()):
         if "shape" in gtxt:
